@@ -35,7 +35,7 @@ Qed.
 (* the state without its caches *)
 Definition nocache_obj (o : obj) : obj := with_cache None o.
 Definition same_but_caches (s s' : state) : Prop :=
-  roots s' = roots s /\ next s' = next s /\ corrupt s' = corrupt s /\ clipfix s' = clipfix s
+  roots s' = roots s /\ next s' = next s /\ corrupt s' = corrupt s /\ conf s' = conf s
   /\ forall i, nocache_obj (objs s' i) = nocache_obj (objs s i).
 
 Definition is_observer (o : op) : bool :=
